@@ -13,6 +13,7 @@
 import Nervus.Proofs.Limits
 import Nervus.Proofs.PlanInst
 import Nervus.Proofs.Bounded
+import Nervus.Proofs.WriteOps
 namespace Nervus.Props.C33
 open Nervus Nervus.PlanOps Nervus.PlanInst
 
@@ -95,6 +96,18 @@ theorem bounded_extra_work_node (S : Sem χ ρ ν ε κ α) (Q : Quirks) (hq : Q
     (∀ h ∈ trace false S Q L site env p d, h.late = false) ∧
     errPulls (trace false S Q L site env p d) ≤ p.depth :=
   trace_good S Q hq L p site env d hc
+
+/-- **complete_or_error for write statements** (`execute_write_with_rows`: staged read clauses,
+    write clauses, FOREACH): under any lawful limit environment the statement does exactly what the
+    unlimited run does — same modification count, rows handed on and graph state — or fails with a
+    limit error.  The list expressions of FOREACH clauses are assumed not to park failures. -/
+theorem write_complete_or_error {ω τ : Type} (isLimit : ε → Bool) (S : Sem χ ρ ν ε κ α) (Q : Quirks)
+    (hq : Q.forwardsErr) (L : LimEnv ε) (hL : L.Lawful isLimit) (hS : S.LimitLawful L.coll isLimit)
+    (W : WSem ω ρ ε τ) (wp : WPlan χ ρ ε α ω)
+    (hnp : ∀ e ∈ wp.lists, ∀ env r, S.park L.coll e env r = none) (site : Site) (env : ρ) (t : τ) :
+    execW S Q L W site env wp t = execW S Q LimEnv.unlimited W site env wp t ∨
+    ∃ e, execW S Q L W site env wp t = .error e ∧ isLimit e = true :=
+  execW_lim isLimit S Q hq L hL hS W wp hnp site env t
 
 /-- the same at the driver: while the query's result is collected -/
 theorem bounded_extra_work (S : Sem χ ρ ν ε κ α) (Q : Quirks) (hq : Q.forwardsErr) (L : LimEnv ε)
